@@ -1,14 +1,477 @@
 package main
 
+import (
+	"bytes"
+	"context"
+	"encoding/json"
+	"fmt"
+	"os"
+	"os/exec"
+	"path/filepath"
+	"regexp"
+	"sort"
+	"strings"
+	"time"
+)
+
+// Replay of counterexamples on the real code.
+//
+// A replay driver is a Go test kept under /verif/replay/<file> that states, in executable form, the clause of the
+// property the obligations of one function (or one data structure) carry, on concrete inputs. When an obligation of that
+// function fails, the values of the terms the driver asks for are read from the solver's model (get-value), handed to the
+// test through GZV_* environment variables, and the test is injected into the real package with `go test -overlay`
+// (nothing is written into /repo). The test tries the model's input first and then a small neighbourhood grid; it prints
+// "GZV-REPRODUCED <input> <observed> <expected>" and fails when the real code misbehaves. Only then does the VIOLATION
+// line drop the words no-failing-input-found.
+
 // ReplayResult is the outcome of replaying a counterexample on the real code.
 type ReplayResult struct {
-	Driver     string `json:"driver"`
-	Cmd        string `json:"cmd"`
-	Test       string `json:"test_source"`
-	Output     string `json:"output"`
-	Reproduced bool   `json:"reproduced"`
+	Driver     string            `json:"driver"`
+	PkgDir     string            `json:"pkg_dir"`
+	TestFunc   string            `json:"test_func"`
+	Env        map[string]string `json:"env"`
+	Cmd        string            `json:"cmd"`
+	Test       string            `json:"test_source"`
+	Output     string            `json:"output"`
+	Reproduced bool              `json:"reproduced"`
+	Input      string            `json:"failing_input,omitempty"`
+}
+
+// replayDriver is one entry of /verif/replay/drivers.json.
+type replayDriver struct {
+	Match   string            `json:"match"`   // regexp on the obligation name
+	PkgDir  string            `json:"pkg_dir"` // package directory (relative to the repo root) the test is injected into
+	File    string            `json:"file"`    // test source under /verif/replay/
+	Test    string            `json:"test"`    // test function
+	Clock   bool              `json:"clock"`   // overlay core/timex/relativetime.go with the virtual clock
+	Values  map[string]string `json:"values"`  // ENV name -> term pattern (see termFor)
+	Timeout int               `json:"timeout_s"`
+}
+
+func loadDrivers(verif string) []replayDriver {
+	b, err := os.ReadFile(filepath.Join(verif, "replay", "drivers.json"))
+	if err != nil {
+		return nil
+	}
+	var d struct {
+		Drivers []replayDriver `json:"drivers"`
+	}
+	if json.Unmarshal(b, &d) != nil {
+		return nil
+	}
+	return d.Drivers
+}
+
+func findDriver(ds []replayDriver, obl string) *replayDriver {
+	for i := range ds {
+		if re, err := regexp.Compile(ds[i].Match); err == nil && re.MatchString(obl) {
+			return &ds[i]
+		}
+	}
+	return nil
+}
+
+// declared symbols of an obligation, by SMT name
+func declaredNames(o *Obligation) []string {
+	var out []string
+	for _, d := range o.Decls {
+		if n := declName(d); n != "" {
+			out = append(out, n)
+		}
+	}
+	sort.Strings(out)
+	return out
+}
+
+func unbar(s string) string { return strings.Trim(s, "|") }
+
+// firstDecl returns the SMT symbol of the earliest version of a Go variable / heap array whose base name is `base`:
+// variables are declared as base!N, heap arrays as H:type.field@N.
+func firstDecl(names []string, base string, sep string) string {
+	best, bestN := "", -1
+	for _, n := range names {
+		u := unbar(n)
+		if !strings.HasPrefix(u, base+sep) {
+			continue
+		}
+		var k int
+		if _, err := fmt.Sscanf(u[len(base)+len(sep):], "%d", &k); err != nil {
+			continue
+		}
+		if fmt.Sprintf("%s%s%d", base, sep, k) != u {
+			continue
+		}
+		if bestN < 0 || k < bestN {
+			best, bestN = n, k
+		}
+	}
+	return best
+}
+
+// termFor turns a driver value pattern into an SMT term over the obligation's symbols:
+//
+//	var x                 the entry value of parameter/local x           (x!N, smallest N)
+//	field x T.f           field f of the object x points to, entry heap  (select H:T.f@0 x!N)
+//	sym name              the symbol itself (ghost state, now, ...)
+func termFor(names []string, pat string) string {
+	f := strings.Fields(pat)
+	if len(f) == 0 {
+		return ""
+	}
+	switch f[0] {
+	case "var":
+		if len(f) == 2 {
+			return firstDecl(names, f[1], "!")
+		}
+	case "field":
+		if len(f) == 3 {
+			v := firstDecl(names, f[1], "!")
+			h := firstDecl(names, "H:"+f[2], "@")
+			if v != "" && h != "" {
+				return "(select " + h + " " + v + ")"
+			}
+		}
+	case "sym":
+		if len(f) == 2 {
+			for _, n := range names {
+				if unbar(n) == f[1] {
+					return n
+				}
+			}
+		}
+	}
+	return ""
+}
+
+// smtScalar normalises an SMT value to a Go-parsable literal: (- 5) -> -5, (/ 1.0 2.0) -> 0.5, true/false kept.
+func smtScalar(v string) string {
+	v = strings.TrimSpace(v)
+	if strings.HasPrefix(v, "(- ") && strings.HasSuffix(v, ")") {
+		in := smtScalar(v[3 : len(v)-1])
+		if strings.HasPrefix(in, "-") {
+			return in[1:]
+		}
+		return "-" + in
+	}
+	if strings.HasPrefix(v, "(/ ") && strings.HasSuffix(v, ")") {
+		parts := splitTopSp(v[3 : len(v)-1])
+		if len(parts) == 2 {
+			var a, b float64
+			fmt.Sscan(smtScalar(parts[0]), &a)
+			fmt.Sscan(smtScalar(parts[1]), &b)
+			if b != 0 {
+				return fmt.Sprintf("%.17g", a/b)
+			}
+		}
+	}
+	return v
+}
+
+func splitTopSp(s string) []string {
+	var out []string
+	depth, start := 0, 0
+	for i, c := range s {
+		switch c {
+		case '(':
+			depth++
+		case ')':
+			depth--
+		case ' ':
+			if depth == 0 {
+				if i > start {
+					out = append(out, s[start:i])
+				}
+				start = i + 1
+			}
+		}
+	}
+	if start < len(s) {
+		out = append(out, s[start:])
+	}
+	return out
+}
+
+// modelValues asks the solvers for a model of the failed obligation and the values of the driver's terms in it.
+func modelValues(o *Obligation, terms map[string]string, tmp string) map[string]string {
+	out := map[string]string{}
+	if len(terms) == 0 {
+		return out
+	}
+	var envs []string
+	for k := range terms {
+		envs = append(envs, k)
+	}
+	sort.Strings(envs)
+	txt := o.smt(true)
+	if i := strings.LastIndex(txt, "(get-model)"); i >= 0 {
+		txt = txt[:i]
+	}
+	for _, k := range envs {
+		txt += "(get-value (" + terms[k] + "))\n"
+	}
+	file := filepath.Join(tmp, "replay-values.smt2")
+	if os.WriteFile(file, []byte(txt), 0o644) != nil {
+		return out
+	}
+	order := []int{0, 1, 2}
+	for i, sp := range solvers {
+		if sp.name == o.Solver {
+			order = append([]int{i}, order...)
+		}
+	}
+	for _, si := range order {
+		r := runSolver(solvers[si], file, 10000)
+		if r.res != "sat" {
+			continue
+		}
+		lines := strings.Split(strings.TrimSpace(r.out), "\n")
+		// one "((term value))" answer per get-value, possibly spanning lines: re-join and split on top-level groups
+		groups := topGroups(strings.Join(lines[1:], " "))
+		if len(groups) != len(envs) {
+			continue
+		}
+		for i, g := range groups {
+			in := strings.TrimSpace(g)
+			in = strings.TrimSuffix(strings.TrimPrefix(in, "(("), "))")
+			t := terms[envs[i]]
+			if strings.HasPrefix(in, t) {
+				out[envs[i]] = smtScalar(in[len(t):])
+			}
+		}
+		return out
+	}
+	return out
+}
+
+func topGroups(s string) []string {
+	var out []string
+	depth, start := 0, -1
+	inBar := false
+	for i, c := range s {
+		if c == '|' {
+			inBar = !inBar
+		}
+		if inBar {
+			continue
+		}
+		switch c {
+		case '(':
+			if depth == 0 {
+				start = i
+			}
+			depth++
+		case ')':
+			depth--
+			if depth == 0 && start >= 0 {
+				out = append(out, s[start:i+1])
+				start = -1
+			}
+		}
+	}
+	return out
+}
+
+const virtualClockSrc = `package timex
+
+import "time"
+
+// virtual clock installed by gzv replay (overlay of relativetime.go): tests move it with SetVirtualNow.
+var virtualNow = time.Duration(1000) * time.Hour
+
+// SetVirtualNow sets the virtual clock.
+func SetVirtualNow(d time.Duration) { virtualNow = d }
+
+// Now returns the virtual clock.
+func Now() time.Duration { return virtualNow }
+
+// Since returns the virtual time elapsed since d.
+func Since(d time.Duration) time.Duration { return virtualNow - d }
+`
+
+// runDriver injects the driver test into the real package through an overlay and runs it.
+func runDriver(repo, verif string, d *replayDriver, env map[string]string, tmp string) *ReplayResult {
+	src, err := os.ReadFile(filepath.Join(verif, "replay", d.File))
+	if err != nil {
+		return &ReplayResult{Driver: d.File, Output: "driver source missing: " + err.Error()}
+	}
+	ov := map[string]map[string]string{"Replace": {}}
+	ov["Replace"][filepath.Join(repo, d.PkgDir, "zz_gzv_replay_test.go")] = filepath.Join(verif, "replay", d.File)
+	if d.Clock {
+		clk := filepath.Join(tmp, "virtualclock.go")
+		os.WriteFile(clk, []byte(virtualClockSrc), 0o644)
+		ov["Replace"][filepath.Join(repo, "core/timex/relativetime.go")] = clk
+	}
+	ovb, _ := json.Marshal(ov)
+	ovf := filepath.Join(tmp, "overlay.json")
+	os.WriteFile(ovf, ovb, 0o644)
+	to := d.Timeout
+	if to <= 0 {
+		to = 60
+	}
+	args := []string{"test", "-overlay", ovf, "-vet=off", "-count=1", fmt.Sprintf("-timeout=%ds", to), "-run", "^" + d.Test + "$", "-v", "./" + d.PkgDir}
+	ctx, cancel := context.WithTimeout(context.Background(), time.Duration(to+120)*time.Second)
+	defer cancel()
+	cmd := exec.CommandContext(ctx, "go", args...)
+	cmd.Dir = repo
+	cmd.Env = append(os.Environ(), "GOFLAGS=-mod=mod", "GOPROXY=off", "GOSUMDB=off", "GOTOOLCHAIN=local")
+	var keys []string
+	for k := range env {
+		keys = append(keys, k)
+	}
+	sort.Strings(keys)
+	var envs []string
+	for _, k := range keys {
+		cmd.Env = append(cmd.Env, "GZV_"+k+"="+env[k])
+		envs = append(envs, "GZV_"+k+"="+env[k])
+	}
+	var out bytes.Buffer
+	cmd.Stdout = &out
+	cmd.Stderr = &out
+	runErr := cmd.Run()
+	rr := &ReplayResult{Driver: d.File, PkgDir: d.PkgDir, TestFunc: d.Test, Env: env, Test: string(src), Output: trunc(out.String(), 6000),
+		Cmd: "cd " + repo + " && " + strings.Join(envs, " ") + " go " + strings.Join(args, " ") +
+			"   # overlay: " + d.PkgDir + "/zz_gzv_replay_test.go -> /verif/replay/" + d.File}
+	for _, l := range strings.Split(out.String(), "\n") {
+		if i := strings.Index(l, "GZV-REPRODUCED"); i >= 0 && runErr != nil {
+			rr.Reproduced = true
+			rr.Input = strings.TrimSpace(l[i+len("GZV-REPRODUCED"):])
+			break
+		}
+	}
+	return rr
 }
 
 func (e *Engine) tryReplay(o *Obligation, outDir string) *ReplayResult {
-	return nil
+	if e.drivers == nil {
+		e.drivers = loadDrivers(e.verif)
+	}
+	d := findDriver(e.drivers, o.Name)
+	if d == nil {
+		return nil
+	}
+	tmp, err := os.MkdirTemp("", "gzv-replay-")
+	if err != nil {
+		return nil
+	}
+	defer os.RemoveAll(tmp)
+	env := map[string]string{}
+	if o.Model != nil {
+		names := declaredNames(o)
+		terms := map[string]string{}
+		for k, pat := range d.Values {
+			if t := termFor(names, pat); t != "" {
+				terms[k] = t
+			}
+		}
+		env = modelValues(o, terms, tmp)
+	}
+	// one driver run per (driver, model values): cache within this process
+	key := d.File + "|" + d.Test + "|" + fmt.Sprint(env)
+	if rr, ok := e.replayCache[key]; ok {
+		return rr
+	}
+	if e.replayRuns >= 4 {
+		return nil // enough replays for one check run; the remaining failures are reported without
+	}
+	e.replayRuns++
+	rr := runDriver(e.repo, e.verif, d, env, tmp)
+	if e.replayCache == nil {
+		e.replayCache = map[string]*ReplayResult{}
+	}
+	e.replayCache[key] = rr
+	return rr
+}
+
+// cmdReplay: gzv replay <file>. Re-decides the named obligation on the current tree and re-runs the replay driver
+// recorded in the file (if any). Exit 1 when the obligation still fails or the driver reproduces the failure, else 0.
+func cmdReplay(args []string) int {
+	if len(args) < 1 {
+		fmt.Fprintln(os.Stderr, "usage: gzv replay <replay-file.json>")
+		return 2
+	}
+	b, err := os.ReadFile(args[0])
+	if err != nil {
+		fmt.Println("replay:", err)
+		return 2
+	}
+	var rf replayFile
+	if err := json.Unmarshal(b, &rf); err != nil || rf.Obligation == "" {
+		// engine-error files and the like: print them
+		fmt.Println(string(b))
+		return 1
+	}
+	fmt.Printf("property:   %s\nobligation: %s\nclause:     %s\nrecorded:   %s (%s)\n", rf.Property, rf.Obligation, rf.Clause, rf.Status, rf.Explanation)
+	if len(rf.ModelBrief) > 0 {
+		fmt.Printf("model:      %s\n", strings.Join(rf.ModelBrief, " "))
+	}
+	rc := 0
+	// 1. re-decide the obligation on the current tree
+	e := newEngine("/repo", "/verif")
+	if err := e.discover(); err == nil && e.load(nil) == nil {
+		tmp, _ := os.MkdirTemp("", "gzv-smt-")
+		defer os.RemoveAll(tmp)
+		var all []*Obligation
+		for _, c := range e.unitsFor(rf.Property) {
+			if !strings.HasPrefix(rf.Obligation, c.Key) && !strings.Contains(rf.Obligation, shortKey(c.Key)) {
+				continue
+			}
+			u := e.runUnit(c)
+			for _, o := range u.obls {
+				if baseName(o.Name) == baseName(rf.Obligation) {
+					all = append(all, o)
+				}
+			}
+		}
+		lua, _ := e.runLua(rf.Property)
+		for _, o := range append(lua, e.runLemmas(rf.Property)...) {
+			if baseName(o.Name) == baseName(rf.Obligation) {
+				all = append(all, o)
+			}
+		}
+		if len(all) == 0 {
+			fmt.Println("current tree: the obligation is no longer generated (code or contract changed)")
+		}
+		for _, o := range all {
+			if o.Status == "" {
+				decide(o, tmp, 10000, false)
+			}
+			fmt.Printf("current tree: %-16s %s %s %dms\n", o.Status, o.Name, o.Solver, o.Ms)
+			if o.Status != "discharged" && o.Status != "expected-sat-ok" {
+				rc = 1
+				if o.Model != nil {
+					fmt.Printf("    model: %v\n", modelSummary(o.Model, 30))
+				}
+			}
+		}
+	} else {
+		fmt.Println("current tree: could not load the contracts/packages")
+		rc = 1
+	}
+	// 2. re-run the recorded driver
+	if rf.Replay != nil && rf.Replay.Driver != "" {
+		tmp, _ := os.MkdirTemp("", "gzv-replay-")
+		defer os.RemoveAll(tmp)
+		ds := loadDrivers("/verif")
+		var d *replayDriver
+		for i := range ds {
+			if ds[i].File == rf.Replay.Driver && ds[i].Test == rf.Replay.TestFunc {
+				d = &ds[i]
+			}
+		}
+		if d == nil {
+			fmt.Println("driver", rf.Replay.Driver, "is no longer registered")
+		} else {
+			rr := runDriver("/repo", "/verif", d, rf.Replay.Env, tmp)
+			fmt.Printf("driver %s (%s) env=%v\n%s\n", d.File, d.Test, rf.Replay.Env, rr.Output)
+			if rr.Reproduced {
+				fmt.Println("REPRODUCED on the real code:", rr.Input)
+				rc = 1
+			} else {
+				fmt.Println("driver did not reproduce a failure on the current tree")
+			}
+		}
+	} else {
+		fmt.Println("no replay driver recorded for this obligation (no-failing-input-found)")
+	}
+	return rc
 }
